@@ -33,3 +33,14 @@ def checks_on_patch(patch, props=None, nlines=6, jobs=1):
             return dict(ex.map(one, props or claimed()))
     finally:
         shutil.rmtree(d, ignore_errors=True)
+
+
+if __name__ == "__main__":
+    # usage: scratch.py <patch.diff> [PROP ...]   -> one block per check that is not silent
+    res = checks_on_patch(os.path.abspath(sys.argv[1]), [p.upper() for p in sys.argv[2:]] or None, nlines=12, jobs=8)
+    if res is None:
+        print("patch does not apply"); sys.exit(3)
+    for p, (rc, ls) in sorted(res.items()):
+        print(p, "rc=%d" % rc)
+        for l in ls:
+            print("   ", l[:400])
